@@ -145,31 +145,29 @@ Proof. intros X. unfold dispose. destruct (wrelease c); [now apply hot_free|now 
 Lemma dispose_given c w id : wrelease c = true -> given (dispose c w id) = given w.
 Proof. intros R. unfold dispose. now rewrite R. Qed.
 
-Lemma hot_deliver_msg c w b clean L : Hot w (woid b ++ L) -> Hot (deliver_msg c w b clean) L.
+Lemma hot_deliver_msg c w b clean pan L : Hot w (woid b ++ L) -> Hot (fst (deliver_msg c w b clean pan)) L.
 Proof.
-  intros X. unfold deliver_msg.
+  intros X. unfold deliver_msg. cbn [fst].
   set (w1 := match b with Some (id, n) => if negb (wclosed w) then w_use w id n else w | None => w end).
   assert (X1 : Hot w1 (woid b ++ L)).
   { unfold w1. destruct b as [[id n]|]; [|assumption]. destruct (negb (wclosed w)); [|assumption].
     cbn [woid app] in *. now apply hot_use_local. }
-  assert (C1 : wclosed w1 = wclosed w).
-  { unfold w1. destruct b as [[id n]|]; [|reflexivity]. destruct (negb (wclosed w)); reflexivity. }
-  rewrite <- C1. clearbody w1. clear X C1 w.
-  set (w2 := if negb (wclosed w1) && clean then close_clean w1 else w1).
+  clearbody w1. clear X.
+  set (w2 := if negb (wclosed w) && clean && negb pan then close_clean w1 else w1).
   assert (X2 : Hot w2 (woid b ++ L)).
-  { unfold w2. destruct (negb (wclosed w1) && clean); [now apply hot_close_clean|assumption]. }
+  { unfold w2. destruct (negb (wclosed w) && clean && negb pan); [now apply hot_close_clean|assumption]. }
   clearbody w2. destruct b as [[id n]|]; [|assumption]. cbn [woid app] in X2. now apply hot_dispose.
 Qed.
 
-Lemma hot_deliver_frame c w b L : Hot w (woid b ++ L) -> Hot (deliver_frame c w b) L.
+Lemma hot_deliver_frame c w b pan L : Hot w (woid b ++ L) -> Hot (fst (deliver_frame c w b pan)) L.
 Proof.
-  intros X. unfold deliver_frame. destruct b as [[id n]|]; [|assumption]. cbn [woid app] in X.
+  intros X. unfold deliver_frame. destruct b as [[id n]|]; [|assumption]. cbn [woid app fst] in *.
   apply hot_dispose. destruct (wclosed w); [assumption|now apply hot_use_local].
 Qed.
 
-Lemma hot_deliver_ctl c w b reply L : Hot w (woid b ++ L) -> Hot (deliver_ctl c w b reply) L.
+Lemma hot_deliver_ctl c w b reply pan L : Hot w (woid b ++ L) -> Hot (fst (deliver_ctl c w b reply pan)) L.
 Proof.
-  intros X. unfold deliver_ctl.
+  intros X. unfold deliver_ctl. cbn [fst].
   assert (X1 : Hot (if reply then send_frame w else w) (woid b ++ L)) by (destruct reply; [now apply hot_send_frame|assumption]).
   destruct b as [[id n]|]; [|assumption]. cbn [woid app] in X1. now apply hot_dispose.
 Qed.
